@@ -3,6 +3,7 @@
 // canonical result line, mirrored by lean/Driver/C20.lean.
 #include "util/bit_packing.hh"
 #include "util/sorted_uniform.hh"
+#include "util/probing_hash_table.hh"
 #include <cstdio>
 #include <cstdlib>
 #include <cstring>
@@ -10,6 +11,92 @@
 #include <sstream>
 #include <string>
 #include <vector>
+
+// ---- stream `probing`: the real ProbingHashTable<…, DivMod>, <…, Power2Mod> and AutoProbing
+struct PEntry {
+  typedef uint64_t Key;
+  uint64_t key, value;
+  Key GetKey() const { return key; }
+  void SetKey(Key k) { key = k; }
+};
+struct ScriptHash {   // id = util::IdentityHash; mul c = k*c mod 2^64; shr c = k >> c
+  int kind; uint64_t c;
+  ScriptHash() : kind(0), c(0) {}
+  uint64_t operator()(uint64_t k) const { return kind == 0 ? util::IdentityHash()(k) : kind == 1 ? k * c : (c >= 64 ? 0 : k >> c); }
+};
+static bool ParseHash(std::istream &in, ScriptHash &h) {
+  std::string k; in >> k >> h.c;
+  if (k == "id") h.kind = 0; else if (k == "mul") h.kind = 1; else if (k == "shr") h.kind = 2; else return false;
+  return true;
+}
+typedef util::ProbingHashTable<PEntry, ScriptHash, std::equal_to<uint64_t>, util::DivMod> DivTable;
+typedef util::ProbingHashTable<PEntry, ScriptHash, std::equal_to<uint64_t>, util::Power2Mod> P2Table;
+typedef util::AutoProbing<PEntry, ScriptHash> AutoTable;
+
+template <class T> static void DumpTable(const T &t, uint64_t invalid, size_t entries) {
+  size_t n = t.RawEnd() - t.RawBegin();
+  printf("%zu %zu", n, entries);
+  for (size_t p = 0; p < n; ++p) {
+    const PEntry &e = t.RawBegin()[p];
+    if (e.key != invalid) printf(" %zu:%llu:%llu", p, (unsigned long long)e.key, (unsigned long long)e.value);
+  }
+  puts("");
+}
+
+// a fixed-size table of either modulus policy over memory owned here
+struct Fixed {
+  bool p2; uint64_t invalid; size_t n;
+  PEntry *mem;
+  DivTable d; P2Table p;
+  Fixed() : p2(false), invalid(0), n(0), mem(NULL) {}
+  ~Fixed() { free(mem); }
+  static PEntry *Alloc(size_t n, uint64_t fill_key) {
+    PEntry *m = (PEntry*)malloc(n * sizeof(PEntry));
+    for (size_t i = 0; i < n; ++i) { m[i].key = fill_key; m[i].value = 0xABABABABABABABABULL; }
+    return m;
+  }
+  // the current table is replaced only if the constructor accepts the size (as in the driver)
+  bool Init(bool p2_, size_t n_, uint64_t inv, const ScriptHash &h) {
+    PEntry *m = Alloc(n_, inv);
+    try {
+      if (p2_) { P2Table t(m, n_ * sizeof(PEntry), inv, h); p = t; }
+      else { DivTable t(m, n_ * sizeof(PEntry), inv, h); d = t; }
+    } catch (const util::ProbingSizeException &) { free(m); return false; }
+    free(mem); mem = m;
+    p2 = p2_; n = n_; invalid = inv;
+    return true;
+  }
+  template <class T> void InsertT(T &t, const PEntry &e) {
+    try {
+      PEntry *i = t.Insert(e);
+      if (i < mem || i >= mem + n || i->key != e.key) puts("bad-iterator"); else printf("ok %zu\n", (size_t)(i - mem));
+    }
+    catch (const util::ProbingSizeException &) { puts("full"); }
+  }
+  template <class T> void FoiT(T &t, const PEntry &e) {
+    try {
+      PEntry *out = NULL;
+      bool f = t.FindOrInsert(e, out);
+      if (out < mem || out >= mem + n || out->key != e.key) puts("bad-iterator");
+      else if (f) printf("found %zu %llu\n", (size_t)(out - mem), (unsigned long long)out->value);
+      else printf("new %zu\n", (size_t)(out - mem));
+    } catch (const util::ProbingSizeException &) { puts("full"); }
+  }
+  template <class T> void FindT(const T &t, uint64_t k) {
+    const PEntry *out = NULL;
+    if (t.Find(k, out)) printf("found %zu %llu\n", (size_t)(out - mem), (unsigned long long)out->value);
+    else puts("absent");
+  }
+  template <class T> void DoubleT(T &t, bool clear_new) {
+    // new memory: old content copied, new half garbage (clear_new = true) or already invalid (false)
+    PEntry *m = Alloc(2 * n, clear_new ? 0x5A5A5A5A5A5A5A5AULL ^ invalid ^ 1 : invalid);
+    memcpy(m, mem, n * sizeof(PEntry));
+    free(mem); mem = m;
+    t.Double(mem, clear_new);
+    n *= 2;
+    puts("ok");
+  }
+};
 
 static int hexv(char c) { return c <= '9' ? c - '0' : (c | 32) - 'a' + 10; }
 
@@ -20,6 +107,10 @@ int main() {
   size_t size = 0;
   std::vector<uint64_t> arr;
   std::vector<uint32_t> arr32;
+  Fixed fx;
+  fx.Init(false, 1, 0, ScriptHash());   // the driver's initial state: one empty bucket
+  AutoTable *au = NULL;
+  uint64_t au_invalid = 0;
   while (std::getline(std::cin, line)) {
     std::istringstream in(line);
     std::string op;
@@ -109,6 +200,56 @@ int main() {
     } else if (op == "dump") {
       for (size_t i = 0; i < size; ++i) printf("%02x", buf[i]);
       puts("");
+    } else if (op == "pnew") {
+      std::string md; uint64_t n, inv; ScriptHash h;
+      in >> md >> n >> inv;
+      if (!ParseHash(in, h) || (md != "div" && md != "p2")) { puts("bad-op"); continue; }
+      puts(fx.Init(md == "p2", n, inv, h) ? "ok" : "badsize");
+    } else if (op == "ins" || op == "foi") {
+      PEntry e; in >> e.key >> e.value;
+      if (op == "ins") { if (fx.p2) fx.InsertT(fx.p, e); else fx.InsertT(fx.d, e); }
+      else { if (fx.p2) fx.FoiT(fx.p, e); else fx.FoiT(fx.d, e); }
+    } else if (op == "find") {
+      uint64_t k; in >> k;
+      if (fx.p2) fx.FindT(fx.p, k); else fx.FindT(fx.d, k);
+    } else if (op == "size") {
+      printf("%zu\n", fx.p2 ? fx.p.SizeNoSerialization() : fx.d.SizeNoSerialization());
+    } else if (op == "pdump") {
+      if (fx.p2) DumpTable(fx.p, fx.invalid, fx.p.SizeNoSerialization()); else DumpTable(fx.d, fx.invalid, fx.d.SizeNoSerialization());
+    } else if (op == "dbl") {
+      std::string how; in >> how;   // optional "noclear": the caller pre-initialised the new half
+      if (fx.p2) fx.DoubleT(fx.p, how != "noclear"); else fx.DoubleT(fx.d, how != "noclear");
+    } else if (op == "anew") {
+      uint64_t init; ScriptHash h;
+      in >> init >> au_invalid;
+      if (!ParseHash(in, h)) { puts("bad-op"); continue; }
+      delete au;
+      au = new AutoTable(init, au_invalid, h);
+      printf("ok %zu\n", (size_t)(au->RawEnd() - au->RawBegin()));
+    } else if (op == "ains") {
+      PEntry e; in >> e.key >> e.value;
+      PEntry *i = au->Insert(e);
+      // the returned iterator must designate the entry inside the (possibly relocated) table
+      if (i < au->RawBegin() || i >= au->RawEnd() || i->key != e.key) puts("bad-iterator");
+      else printf("ok %zu\n", (size_t)(i - au->RawBegin()));
+    } else if (op == "afoi") {
+      PEntry e; in >> e.key >> e.value;
+      try {
+        PEntry *out = NULL;
+        bool f = au->FindOrInsert(e, out);
+        if (out < au->RawBegin() || out >= au->RawEnd() || out->key != e.key) puts("bad-iterator");
+        else if (f) printf("found %zu %llu\n", (size_t)(out - au->RawBegin()), (unsigned long long)out->value);
+        else printf("new %zu\n", (size_t)(out - au->RawBegin()));
+      } catch (const util::ProbingSizeException &) { puts("full"); }
+    } else if (op == "afind") {
+      uint64_t k; in >> k;
+      const PEntry *out = NULL;
+      if (au->Find(k, out)) printf("found %zu %llu\n", (size_t)(out - au->RawBegin()), (unsigned long long)out->value);
+      else puts("absent");
+    } else if (op == "asize") {
+      printf("%zu\n", au->Size());
+    } else if (op == "adump") {
+      DumpTable(*au, au_invalid, au->Size());
     } else if (op == "rb") {
       uint64_t v; in >> v;
       printf("%u\n", (unsigned)util::RequiredBits(v));
@@ -117,5 +258,6 @@ int main() {
     }
   }
   free(buf);
+  delete au;
   return 0;
 }
